@@ -321,6 +321,10 @@ def c01_roundtrip(seed, tier):
         special.append((huge, ["--fixed-size", "3MiB"], "F:3145728", "none", None))
         special.append((bytes([0x55]) * ((5 << 20) + 3), ["--hash-chunking", "RollSum", "--avg-chunk-size", "4MiB", "--min-chunk-size", "16KiB",
                         "--max-chunk-size", "6MiB", "--rolling-window-size", "64"], "R:21:16384:6291456:64", "brotli", 1))
+        # small chunks, then chunks of 2 MiB (a constant run cut at the maximum), then small ones again, stored as they are
+        mixed = rng.randbytes(100000) + bytes([7]) * (5 << 20) + rng.randbytes(50000)
+        special.append((mixed, ["--hash-chunking", "RollSum", "--avg-chunk-size", "64KiB", "--min-chunk-size", "16KiB",
+                        "--max-chunk-size", "2MiB", "--rolling-window-size", "64"], "R:15:16384:2097152:64", "none", None))
         # two different 16-byte blocks whose Blake2b-512 hashes share their first 4 bytes, archived with
         # --hash-length 4 (KNOWN FINDING: the writers tell chunks apart by the full hash, the reader by the
         # truncated one - the clone reports success and repeats the first block)
@@ -716,6 +720,40 @@ def c12_determinism(seed, tier):
 
 # ------------------------------------------------------------------------------ C14: refusals
 
+def pin_with_full_seeds(W, R, rng):
+    """A wrong --verify-header value when the seeds already hold every chunk (a roll-back attempt with the old image at
+    hand): still refused, the output not created / left as it was."""
+    src = rng.randbytes(2500)
+    arch, apath, cfg_tok, hl = make_archive(W, rng, src, cfg=(["--fixed-size", "500"], "F:500"))
+    hc = pyfmt_header_checksum(arch)
+    wrong = ("%02x" % (hc[0] ^ 0x80)) + hc.hex()[2:]
+    for how in ("seed-file", "seed-stdin", "seed-output"):
+        outp = W.fresh(".out")
+        prior = None
+        kw = {}
+        if how == "seed-file":
+            kw["seeds"] = [W.write(src, ".seed")]
+        elif how == "seed-stdin":
+            kw["stdin_seed"] = src
+        else:
+            prior = src
+            with open(outp, "wb") as f:
+                f.write(prior)
+            kw["seed_output"] = True
+        cls, rc, so, se = clone_cli(W, apath, outp, pin=wrong, **kw)
+        after = read_file(outp)
+        req = "cli-clone wrong --verify-header, every chunk available from %s" % how
+        R.stat("wrong_pin_with_seeds_that_hold_everything")
+        if cls == "ok":
+            R.fail("refusal-expected-but-clone-succeeded", req)
+        elif cls != "err":
+            R.fail("refusal-ended-in-%s" % cls, req)
+        if after != prior:
+            R.fail("refused-operation-changed-the-output", req)
+        if os.path.exists(outp):
+            os.unlink(outp)
+
+
 def c14_refusals(seed, tier):
     rng = random.Random(seed * 1000003 + 14)
     R = Result()
@@ -862,6 +900,8 @@ def c14_refusals(seed, tier):
                         R.fail("block-device-output-wrong", req)
                     if os.path.exists(outp):
                         os.unlink(outp)
+            if rep == 0:
+                pin_with_full_seeds(W, R, rng)
             # the same two rows on REAL block devices (loop devices, when one can be attached): smaller than the
             # source - refused, content untouched; large enough - cloned, nothing beyond the source length touched
             if rep == 0:
@@ -1887,6 +1927,7 @@ def c04_corruption(seed, tier):
     R = Result()
     W = Work("c04")
     try:
+        pin_with_full_seeds(W, R, rng)
         n = 24 if tier == "thorough" else 4
         for i in range(n):
             src = gen_source(rng, 1200)
@@ -2136,6 +2177,61 @@ def c11_conformance(seed, tier):
         try:
             version = re.search(r'^version = "([^"]+)"', open(os.path.join(core.REPO, "Cargo.toml")).read(), re.M).group(1)
         except Exception:
+            pass
+        # both writers on a source with small chunks followed by chunks of 2 MiB and small ones again, stored as they
+        # are: the stored bytes at every descriptor's offset must be that chunk (independent decoder)
+        mixed = rng.randbytes(100000) + bytes([7]) * (5 << 20) + rng.randbytes(50000)
+        mcfg = ["--hash-chunking", "RollSum", "--avg-chunk-size", "64KiB", "--min-chunk-size", "16KiB", "--max-chunk-size", "2MiB",
+                "--rolling-window-size", "64"]
+        for writer in ("cli", "lib"):
+            if writer == "cli":
+                clsm, archm, sem, apm = compress_cli(W, mixed, mcfg, 32, "none", None, 3)
+            else:
+                archm, errm = lib_compress(W, mixed, "R:15:16384:2097152:64", 32, "none", None, 3, [], 0)
+                clsm = "ok" if archm is not None else "err"
+            R.stat("archives_with_small_and_2MiB_chunks")
+            if clsm != "ok" or archm is None:
+                R.fail("compress-%s" % clsm, "%s-compress mixed chunk sizes" % writer)
+            else:
+                probs = pyfmt.conformance_problems(archm, mixed, "R:15:16384:2097152:64", 32, 0, 0, {}, version)
+                if probs:
+                    R.fail("archive-does-not-conform", "%s-compress small chunks, 2 MiB chunks, small chunks :: %s" % (writer, "; ".join(probs)[:300]))
+        del mixed
+        # a metadata value that comes from something that is not a regular file (a named pipe: size 0 until read)
+        try:
+            import threading
+            fifo = W.fresh(".meta.fifo")
+            os.mkfifo(fifo)
+            val = b"1.2.3-from-a-pipe\n" * 3
+
+            def feed_meta(path=fifo, data=val):
+                try:
+                    with open(path, "wb") as fw:
+                        fw.write(data)
+                except OSError:
+                    pass
+            th = threading.Thread(target=feed_meta, daemon=True)
+            th.start()
+            msrc = rng.randbytes(3000)
+            clsp, archp, sep, app = compress_cli(W, msrc, ["--fixed-size", "1000"], 16, "none", None, 2, [], extra=["--metadata-file", "version", fifo], timeout=60)
+            th.join(timeout=5)
+            if not th.is_alive() or clsp == "ok":
+                R.stat("metadata_file_is_a_named_pipe")
+                if clsp != "ok" or archp is None:
+                    R.fail("compress-%s" % clsp, "cli-compress --metadata-file version <named pipe>")
+                else:
+                    rec = pyfmt.parse_archive(archp)["dictionary"]["metadata"]
+                    if rec.get("version") != val:
+                        R.fail("archive-does-not-conform", "cli-compress --metadata-file version <named pipe> :: recorded %d bytes, the pipe delivered %d" % (
+                            len(rec.get("version", b"")), len(val)))
+            if th.is_alive():
+                # nobody opened the pipe: release the feeder
+                try:
+                    fd = os.open(fifo, os.O_RDONLY | os.O_NONBLOCK)
+                    os.close(fd)
+                except OSError:
+                    pass
+        except (OSError, AttributeError):
             pass
         for i in range(n):
             src = gen_source(rng, 20000 if i % 5 == 0 else 3000)
